@@ -157,6 +157,9 @@ class EnergyHistories(common.Suite):
                     out.append((f"energy:extra-evaluation:{ts}:{what}", f"trial {k}: {ch['devals']} evaluations (trial + logger read)"))
         return out
 
+    def known_scope(self, case):
+        return c03.defect_scope(case)
+
     def classify(self, case, obs):
         oc = obs.get("outcomes", [])
         for k in range(len(oc) - 1):
